@@ -41,3 +41,21 @@ package jsonable
 //@   loop 0
 //@     invariant fresh(nextValues) && len(nextValues) == len(e.Next)
 //@     loopmodifies elems(nextValues)
+
+//@ func ToJsonableIdentitySignature
+//@   requires id != nil
+//@   ensures result != nil && fresh(result) && result.ID == hexenc(bytes(id.ID)) && result.PublicKey == hexenc(bytes(id.PublicKey))
+
+//@ func ToJsonableIdentity
+//@   requires id != nil && id.Signatures != nil
+//@   ensures result != nil && fresh(result) && result.ID == id.ID && result.Type == id.Type && result.PublicKey == hexenc(bytes(id.PublicKey)) && result.Signatures != nil
+
+//@ func ToJsonableLamportClock
+//@   requires validClock(l)
+//@   ensures result != nil && fresh(result) && result.Time == l.(*entry.LamportClock).Time && result.ID == hexenc(bytes(l.(*entry.LamportClock).ID))
+
+//@ func ToJsonableEntry
+//@   requires validEntry(e) && (e.(*entry.Entry).Identity == nil || e.(*entry.Entry).Identity.Signatures != nil)
+//@   ensures result != nil && fresh(result)
+//@   loop 0
+//@     invariant fresh(nextValues) && len(nextValues) == len(e.(*entry.Entry).Next)
